@@ -58,6 +58,22 @@ def check(chk):
     chk.ob("DOM-33", "Counter.count moves the value for every hit on an enabled counter outside the multiple-hit window (no further condition)", ok,
            cf.where(upd[0].ast) if upd else cf.where(), detail="guards %s" % sorted(ccfg.guards_at(upd[0].id).items()) if upd else "", construct=cf.ident,
            text="count selection")
+    # every control event reaches the block: a control event with a delay is scheduled as a delay of its own (no name): under a shared name a
+    # second count / reset arriving while the first is still waiting would replace it, and N hits inside the delay become one
+    n_ce = 0
+    for rel_, qn_ in (("mpf/core/device_manager.py", "DeviceManager._control_event_handler"), ("mpf/core/mode.py", "Mode._control_event_handler")):
+        h_ = chk.repo.func(rel_, qn_)
+        chk.analysed(h_)
+        adds_ = [c for c in h_.calls() if call_attr(c) == "add" and "delay" in src(c.func.value).lower()]
+        for c in adds_:
+            n_ce += 1
+            named = kwarg(c, "name") is not None or len(c.args) >= 3
+            cb = kwarg(c, "callback") if kwarg(c, "callback") is not None else (c.args[1] if len(c.args) > 1 else None)
+            ms_ = kwarg(c, "ms") if kwarg(c, "ms") is not None else (c.args[0] if c.args else None)
+            ok = not named and cb is not None and src(cb) == "callback" and ms_ is not None and src(ms_) == "ms_delay"
+            chk.ob("DOM-33", "%s schedules each delayed control event as a delay of its own (anonymous), for the configured delay and callback" % qn_, ok, h_.where(c),
+                   detail=src(c), construct=h_.ident, text="delayed control event named / altered in " + qn_)
+    chk.ob("DOM-33", "delayed control event sites examined", n_ce >= 2, "mpf/core/device_manager.py:1", nontrivial=False)
     chk.floor("DOM-33", 10)
 
     # ------------------------------------------------------------ DOM-34
@@ -297,6 +313,7 @@ def battery():
         M("twin: log text", LB, "        self.debug_log(\"Complete\")", "        self.debug_log(\"Completed\")", None),
         M("hit window restarted by ignored hits", LB, "            if self.config['multiple_hit_window']:\n                self.debug_log(\"Beginning Ignore Hits\")\n                self.ignore_hits = True\n                self.delay.add(name='ignore_hits_within_window',\n                               ms=self.config['multiple_hit_window'],\n                               callback=self.stop_ignoring_hits)", "        if self.config['multiple_hit_window']:\n            self.debug_log(\"Beginning Ignore Hits\")\n            self.ignore_hits = True\n            self.delay.add(name='ignore_hits_within_window',\n                           ms=self.config['multiple_hit_window'],\n                           callback=self.stop_ignoring_hits)", "PAIR-21"),
         M("completed counter drops hits", LB, "        if not self.enabled:\n            return\n\n        count_complete_value =", "        if not self.enabled or self.completed:\n            return\n\n        count_complete_value =", "DOM-33"),
+        M("delayed control events share a name", "mpf/core/device_manager.py", "        delay_mgr.add(ms=ms_delay, callback=callback)", "        delay_mgr.add(ms=ms_delay, callback=callback, name=str(callback))", "DOM-33"),
     ]
 
 
